@@ -891,7 +891,7 @@ pub fn stages(ctx: &Ctx) -> Vec<Stage> {
         let tol = [1e-14, 1e-11, 1e-8, 1e-6][(i / 32) as usize];
         dispatch(rep, &mut rng, i, n, 1.0, tol, "anchors");
     }));
-    st.push(Stage::new("random", tier.pick(60_000, 400_000), move |i, rep| {
+    st.push(Stage::new("random", tier.pick(60_000, 2_000_000), move |i, rep| {
         let mut rng = Rng::for_case(seed, "c15-random", i);
         let n = 1 + rng.below(8);
         let scale = rng.log10(-3.0, 3.0);
